@@ -394,7 +394,28 @@ def check_parity_norm(prog: Program, res: Result) -> None:
         asg = [n for n in ast.walk(guard[0]) if isinstance(n, ast.Assign)
                and isinstance(n.value, ast.IfExp)]
         if len(asg) != 1:
-            res.error(f"R-PARITY-NORM {inst}: normalisation not recognised")
+            # the plain ordering handed on unchanged: no normalisation at all
+            plain = [c for c in ast.walk(guard[0]) if isinstance(c, ast.Call)
+                     and isinstance(c.func, ast.Attribute)
+                     and c.func.attr == "append"
+                     and any(isinstance(x, ast.Attribute) and x.attr == "atoms"
+                             and norm(x.value) == S
+                             for a_ in c.args for x in ast.walk(a_))]
+            plain_def = [n for n in ast.walk(guard[0])
+                         if isinstance(n, ast.Assign)
+                         and norm(n.value) == f"{S}.atoms"]
+            if not asg and (plain or plain_def):
+                site = (plain or plain_def)[0]
+                res.bad("R-PARITY-NORM", f"{fs.short}: {it} no normalisation",
+                        fs.loc(site), f"{inst}: `{norm(site, 80)}` hands on "
+                        f"{S}.atoms for every parity; a parity -1 descriptor "
+                        "is not replaced by its _inverted_atoms() ordering, "
+                        "so (ordering, -1) and (mirrored ordering, +1) get "
+                        "different colours", instance=inst)
+                forms.append(("plain",))
+            else:
+                res.error(f"R-PARITY-NORM {inst}: normalisation not "
+                          "recognised")
             continue
         e = asg[0].value
         form = (norm(e.body), norm(e.test), norm(e.orelse))
@@ -907,41 +928,39 @@ def check_final_hash(prog: Program, res: Result) -> None:
         du = DefUse(fi.node)
         rets = [r for r in ast.walk(fi.node) if isinstance(r, ast.Return)]
         inst = f"{fi.short}: int(multiset hash of color_refine_{k}(graph))"
-        ok = False
-        why = "return form not recognised"
-        if len(rets) == 1:
-            from .pe import resolve
-            v = resolve(rets[0].value, fi.node)
-            # keep the colour array symbolic: only undo `x = hash(...)` locals
-            if isinstance(v, ast.Call) and call_name(v) == "int" and v.args \
-                    and isinstance(v.args[0], ast.Call) and call_name(
-                    v.args[0]) == MSET_H and isinstance(
-                    v.args[0].args[0], ast.Call) and call_name(
-                    v.args[0].args[0]) == f"color_refine_{k}" and len(
-                    du.defs.get("color_array", [1])) <= 1:
-                ok = True
-            v = rets[0].value
-            if ok:
-                pass
-            elif isinstance(v, ast.Call) and call_name(v) == "int" and v.args \
-                    and isinstance(v.args[0], ast.Call) and call_name(
-                    v.args[0]) == MSET_H and len(v.args[0].args) == 1:
-                a = v.args[0].args[0]
-                defs = du.defs.get(a.id, []) if isinstance(a, ast.Name) else [a]
-                if len(defs) == 1 and isinstance(defs[0], ast.Call) and \
-                        call_name(defs[0]) == f"color_refine_{k}":
-                    ok = True
-                else:
-                    why = (f"`{norm(a)}` is fed by "
-                           f"{[norm(d, 60) for d in defs]}")
-        if ok:
+        verdicts = []
+        for r_ in rets:
+            v = r_.value
+            if isinstance(v, ast.Call) and call_name(v) == "int" and \
+                    len(v.args) == 1:
+                v = v.args[0]
+            if not (isinstance(v, ast.Call) and call_name(v) == MSET_H
+                    and v.args):
+                verdicts.append((None, f"`return {norm(r_.value, 70)}`"))
+                continue
+            a = v.args[0]
+            defs = du.defs.get(a.id, []) if isinstance(a, ast.Name) else [a]
+            if defs and all(isinstance(d, ast.Call) and call_name(d) ==
+                            f"color_refine_{k}" for d in defs):
+                verdicts.append((True, ""))
+            else:
+                verdicts.append((False, f"`return {norm(r_.value, 70)}` "
+                                 f"hashes `{norm(a)}`, fed by "
+                                 f"{[norm(d, 60) for d in defs]}, not the "
+                                 f"refined colours color_refine_{k}(graph)"))
+        if verdicts and all(v_ is True for v_, _ in verdicts):
             res.ok("R-HASH-ONLY-COLOURS", inst, fi.loc())
-        else:
+        elif any(v_ is False for v_, _ in verdicts):
+            why = next(w_ for v_, w_ in verdicts if v_ is False)
             res.bad("R-HASH-ONLY-COLOURS", f"{fi.short}: hashed data",
                     fi.loc(), f"{inst}: {why}; data that is not a refined "
-                    "colour (e.g. raw parities) makes (ordering, parity) and "
-                    "(mirrored ordering, opposite parity) hash differently",
-                    instance=inst)
+                    "colour (raw parities, the unrefined element colours, "
+                    "counts) makes equal graphs hash differently or different "
+                    "graphs hash alike", instance=inst)
+        else:
+            res.unrecognised("R-HASH-ONLY-COLOURS", inst, fi.loc(),
+                             "return form " + "; ".join(
+                                 w_ for _, w_ in verdicts) or "no return")
     mod = prog.module(MOD)
     for node in ast.walk(mod.tree):
         if isinstance(node, ast.Attribute) and node.attr == "parity":
